@@ -5,6 +5,7 @@ CONSTANTS
   Funder = "s0"
   InitialUnits <- mcInitialUnits
   Record = FALSE
+  Weight = 1
   Depth = 0
 INVARIANTS
   TypeOK
